@@ -116,7 +116,7 @@ theorem annotateTypeWith_spec (G : GLang) (c : GCfg) (g : GState) (root : Node) 
     cases ty with
     | var v => rw [inCanon_var] at hC; cases hC
     | app o args =>
-      simp only [] at h
+      simp only [Option.getD_none] at h
       rw [if_pos hC] at h
       obtain ⟨st, each, only⟩ := supFold_spec G c root cur sups _ g' h
       have s1 : TStep (AnnPred root cur) AnyQ g ga :=
